@@ -228,6 +228,7 @@ package stack
 //@   gvar d0 int
 //@   gvar nOpen int
 //@   update after-call trimCurlyBrackets#1: d0 := depth; nOpen := ret0
+//@   assert after-call fmt.Errorf#1: [onlyNestingBeyondFiveLevelsIsRejected C01] depth >= 6
 //@   assert after-store Arg.IsAggregate#1: [openingBracketAddsAChildAtTheCurrentLevel C01] cur == stack[depth] && len(cur.Values) >= 1 && next == &cur.Values[len(cur.Values)-1] && next.IsAggregate
 //@   assert after-store Args.Elided#1: [ellipsisMarksTheCurrentLevel C01] cur == stack[depth] && cur.Elided
 //@   assert after-store Args.Values#2: [tooLargeLeafGoesToTheCurrentLevel C01] cur == stack[depth] && depth == d0 + nOpen
